@@ -7,7 +7,8 @@ mkdir -p .bin out evidence
 touch harness/go.sum
 python3 - <<'PY'
 import json,subprocess,os,sys
-conf=json.load(open('checks.json'))
+import glob
+conf={os.path.basename(f)[:-5]: json.load(open(f)) for f in glob.glob('checks/C*.json')}
 jobs=[]
 for pid,c in sorted(conf.items()):
     if c.get('disabled'): continue
